@@ -13,9 +13,9 @@ from psyclone.psyir.symbols import (ArrayType, DataTypeSymbol,
                                     UnsupportedFortranType)
 
 from mc.fortsem.interp import (ArrayVal, ArrVal, Cell, Frame, Interp, ObjVal,
-                               POISON, UB, Unsupported)
+                               POISON, UB)
 from mc.lfring import kernels
-from mc.lfring.ring import ANNEXED, OWNED, LFRicAbort, Machine
+from mc.lfring.ring import ANNEXED, OWNED
 
 STENCIL_NAMES = {"stencil_cross": "cross", "stencil_region": "region",
                  "stencil_1dx": "x1d", "stencil_1dy": "y1d",
